@@ -156,7 +156,7 @@ PROPS["C07"] = {
     "assumptions": ["the real gsfa writer is correct for < 1000 entries per address (judged by C06)"],
     "units": [
         {"name": "reader-exhaustive", "pkg": "./gsfa", "run": "TestVfC07Exhaustive", "kind": "plain", "checks": 0, "shards": T(8, 16), "timeout": T(900, 3000), "transforms": GSFA_FASTPOLL, "env": {"VERIF_C07_STRIDE": T(3, 1)}},
-        {"name": "handler", "pkg": ".", "run": "TestVfC07Handler", "replay": "TestVfReplayC07Handler", "checks": T(60, 2000), "shards": T(6, 16), "timeout": T(900, 3000), "transforms": GSFA_FASTPOLL, "env": ROOT_ENV},
+        {"name": "handler", "pkg": ".", "run": "TestVfC07Handler", "replay": "TestVfReplayC07Handler", "checks": T(96, 2000), "shards": T(6, 16), "timeout": T(900, 3000), "transforms": GSFA_FASTPOLL, "env": ROOT_ENV},
         {"name": "reader-random", "pkg": "./gsfa", "run": "TestVfC07Random", "checks": T(40, 2000), "shards": T(4, 16), "timeout": T(900, 3000), "transforms": GSFA_FASTPOLL},
     ],
 }
